@@ -318,7 +318,7 @@ def respell(rnd, q):
 
 
 EXTENSIONS = ["add-1", "cat-x", "ident", "mulf-2", "flagged-t", "let-v1-q/getvar-v1", "attr_up", "attr_low/ident",
-              "cat-~X~ident~E", "add-~X~/one~E", "withctx-w", "push-z", "none_default"]
+              "cat-~X~ident~E", "add-~X~/one~E", "withctx-w", "push-z", "none_default", "ctxvar-v1", "ctxvar-tag"]
 
 
 def family(rnd, g, base=None):
@@ -340,6 +340,8 @@ def family(rnd, g, base=None):
         fam.append(r)
     # the same results labelled by a trailing file name (must not rub off on the unlabelled keys)
     fam.append(t + "/" + rnd.choice(["out.txt", "res.json", "x.pickle", "r.tar.gz"]))
+    if rnd.random() < 0.5:
+        fam.append(t + "/" + rnd.choice(["res.json", "v.csv", "w.html"]))   # a name whose format is not the type's own
     if len(pf) > 1 and rnd.random() < 0.5:
         fam.append(rnd.choice(pf[1:]) + "/" + rnd.choice(["p.txt", "q.b"]))
     seen, out = set(), []
